@@ -113,12 +113,12 @@ type Unit struct {
 
 // BinFile is one binlog file.
 type BinFile struct {
-	Name   string
-	Head   []*Event // FDE (+ PREVIOUS_GTIDS)
-	Events []*Event // all events in order, Head included, rotate included
-	Checksum bool // events of this file carry CRC32 (binlog_checksum may change at a rotation)
-	Size   uint32
-	Gap    uint32 // >0: offsets in (end of head, Gap) are an unmaterialised sparse region (file 0 only)
+	Name     string
+	Head     []*Event // FDE (+ PREVIOUS_GTIDS)
+	Events   []*Event // all events in order, Head included, rotate included
+	Checksum bool     // events of this file carry CRC32 (binlog_checksum may change at a rotation)
+	Size     uint32
+	Gap      uint32 // >0: offsets in (end of head, Gap) are an unmaterialised sparse region (file 0 only)
 }
 
 // HistCfg is the configuration of a history.
@@ -134,15 +134,15 @@ type HistCfg struct {
 
 // History is a complete generated multi-file binlog.
 type History struct {
-	Cfg    HistCfg
-	Files  []*BinFile
-	Units  []*Unit
-	Tables []*TableDef
-	nextTS uint32
-	marker int
-	overflow bool
-	replicaID uint32
-	byID      map[uint64]*TableDef
+	Cfg            HistCfg
+	Files          []*BinFile
+	Units          []*Unit
+	Tables         []*TableDef
+	nextTS         uint32
+	marker         int
+	overflow       bool
+	replicaID      uint32
+	byID           map[uint64]*TableDef
 	sessionCharset *[3]int32
 	exactTable     *TableDef
 }
@@ -163,11 +163,11 @@ type GenOpts struct {
 	CaseMix      bool
 	ForceCfg     *HistCfg
 	BigOffsets   bool
-	TableIDReuse bool // several ids, re-announcements, type changes
-	OddNames     bool // unusual binlog file names
-	CountChange  bool // C15: a cached table id is re-announced with another column count
-	PoisonJSON   bool // C06: a JSON value the decoder must reject (decode failure ends the stream with an error)
-	Rare         bool // enable the rare-coincidence modes (long histories, exact packet sizes, many rows, extreme timestamps)
+	TableIDReuse bool   // several ids, re-announcements, type changes
+	OddNames     bool   // unusual binlog file names
+	CountChange  bool   // C15: a cached table id is re-announced with another column count
+	PoisonJSON   bool   // C06: a JSON value the decoder must reject (decode failure ends the stream with an error)
+	Rare         bool   // enable the rare-coincidence modes (long histories, exact packet sizes, many rows, extreme timestamps)
 	ReplicaID    uint32 // the replica's own server id (events may legitimately carry it: circular topologies)
 	HaveReplica  bool
 	Jumbo        bool // one value large enough to split the event over several MySQL packets
@@ -327,16 +327,16 @@ func (t *TableDef) typesAndMeta() (types, meta []byte, nullable []bool) {
 
 // builder lays events out in files.
 type builder struct {
-	h    *History
-	s    *Stream
-	o    *GenOpts
-	file int
-	off  uint32
-	unit int
-	forceRows bool // every rows event carries at least one row
-	unitSID   uint32 // server id stamped on the events of the current unit (0 = the master's)
-	nameBase  int    // first binlog index of this master minus one
-	forceNextTx bool // the previous file ended with a torn transaction: the next unit must open with BEGIN
+	h           *History
+	s           *Stream
+	o           *GenOpts
+	file        int
+	off         uint32
+	unit        int
+	forceRows   bool   // every rows event carries at least one row
+	unitSID     uint32 // server id stamped on the events of the current unit (0 = the master's)
+	nameBase    int    // first binlog index of this master minus one
+	forceNextTx bool   // the previous file ended with a torn transaction: the next unit must open with BEGIN
 }
 
 func (b *builder) curFile() *BinFile { return b.h.Files[b.file] }
@@ -1345,7 +1345,7 @@ func (b *builder) addPoisonJSONUnit() {
 		typ = evWriteRowsV2
 	}
 	body := rowsBodyHeader(cfg.Format, cfg.RowsV2, t.ID, 1, nil, 2, []bool{true, true})
-	body = append(body, 0)                  // null bitmap
+	body = append(body, 0)                   // null bitmap
 	body = leN(body, uint64(1+s.N(1000)), 4) // id
 	body = leN(body, uint64(len(doc)), 4)
 	body = append(body, doc...)
